@@ -133,7 +133,7 @@ def replay_scenarios(chk, scs):
 
 
 def sizes(tier):
-    return (600, 200, 600) if tier == "quick" else (28000, 9000, 40000)
+    return (600, 200, 600) if tier == "quick" else (20000, 6000, 30000)
 
 
 def run(chk, only=None):
